@@ -80,8 +80,10 @@ class PCEIdentity:
             print("PCE identity structure size field too small")
             return
         self.pceNameSize = self.flattenedSize - (4 + 8 + 12)
-        self.pceName = bytes.decode(
-            stream.get_mem(self.pceNameSize)).strip("\u0000")
+        self.pceName = ""
+        if self.pceNameSize > 0:
+            self.pceName = bytes.decode(
+                stream.get_mem(self.pceNameSize)).strip("\u0000")
 
 
 class MRUCallout:
